@@ -1,6 +1,5 @@
 import builtins
 
-from itertools import count
 from typing import Final
 
 _builtins: Final = frozenset(dir(builtins))
@@ -25,7 +24,7 @@ def to_snake_case(value: str) -> str:
     groups = []
     current_group = ""
 
-    for offset in count(0):
+    for offset in range(len(value)):
         current = value[offset]
 
         try:
